@@ -15,7 +15,7 @@ Err(e) == [ok |-> FALSE, err |-> e]
 Ok(v, p) == [ok |-> TRUE, v |-> v, pos |-> p, tk |-> <<>>]
 OkT(v, p, tk) == [ok |-> TRUE, v |-> v, pos |-> p, tk |-> tk]
 Rest(bs, p) == SubSeq(bs, p + 1, Len(bs))      \* p = number of bytes already consumed
-Reverse(s) == [i \in 1..Len(s) |-> s[Len(s) + 1 - i]]
+RevSeq(s) == [i \in 1..Len(s) |-> s[Len(s) + 1 - i]]
 
 \* ------------------------------------------------------------------ encoding
 RECURSIVE Enc(_, _), EncAll(_, _), EncEach(_, _), EncPairs(_, _, _)
@@ -34,7 +34,7 @@ Enc(s, v) ==
     [] IntW(s.k) # 0 -> EncInt(s.k, v)
     [] s.k \in {"f32", "f64"} -> v
     [] s.k = "fixle" -> v
-    [] s.k = "fixbe" -> Reverse(v)
+    [] s.k = "fixbe" -> RevSeq(v)
     [] s.k \in {"str", "bytes", "char"} -> SmallVar(Len(v)) \o v
     [] s.k = "opt" -> IF v.some = 0 THEN <<0>> ELSE <<1>> \o Enc(s.t, v.v)
     [] s.k \in {"unit", "unit_struct"} -> <<>>
@@ -102,7 +102,7 @@ Dec(s, bs, p) ==
     [] s.k = "f32" -> IF n - p < 4 THEN Err("End") ELSE OkT(SubSeq(bs, p+1, p+4), p+4, <<[at |-> p, n |-> 4, k |-> "f"]>>)
     [] s.k = "f64" -> IF n - p < 8 THEN Err("End") ELSE OkT(SubSeq(bs, p+1, p+8), p+8, <<[at |-> p, n |-> 8, k |-> "f"]>>)
     [] s.k = "fixle" -> LET w == s.w \div 8 IN IF n - p < w THEN Err("End") ELSE Ok(SubSeq(bs, p+1, p+w), p+w)
-    [] s.k = "fixbe" -> LET w == s.w \div 8 IN IF n - p < w THEN Err("End") ELSE Ok(Reverse(SubSeq(bs, p+1, p+w)), p+w)
+    [] s.k = "fixbe" -> LET w == s.w \div 8 IN IF n - p < w THEN Err("End") ELSE Ok(RevSeq(SubSeq(bs, p+1, p+w)), p+w)
     [] s.k = "bytes" -> LET l == ReadLen(bs, p) IN IF ~l.ok THEN l ELSE TakeBlock(bs, l, "b")
     [] s.k = "str" -> LET l == ReadLen(bs, p) IN IF ~l.ok THEN l ELSE
           LET b == TakeBlock(bs, l, "s") IN IF ~b.ok THEN b ELSE IF Utf8Valid(b.v) THEN b ELSE Err("BadUtf8")
